@@ -248,6 +248,12 @@ func sameAccessPath(info *types.Info, a, b ast.Expr) bool {
 	case *ast.BasicLit:
 		y, ok := b.(*ast.BasicLit)
 		return ok && x.Kind == y.Kind && x.Value == y.Value
+	case *ast.TypeAssertExpr:
+		y, ok := b.(*ast.TypeAssertExpr)
+		if !ok || x.Type == nil || y.Type == nil {
+			return false
+		}
+		return types.Identical(info.TypeOf(x.Type), info.TypeOf(y.Type)) && sameAccessPath(info, x.X, y.X)
 	}
 	return false
 }
